@@ -24,11 +24,11 @@ BOUNDS = {"quick": "root: 7 x 8 x 3 x 3 = 504 configurations; top: 3 x 3 = 9 con
           "thorough": "root: + all mixed child-variant assignments (7 x 8 x 3 x up to 27); top: 3 x 9"}
 
 IMAGES = ["radio", "application", "top"]
-IMG_NAME = {"radio": "radio_img", "application": "app-core.v2", "top": "nordic_top", "secdom": "secdom_fw", "sysctrl": "sysctrl_fw"}
+IMG_NAME = {"radio": "radio&img", "application": "app-core.v2", "top": "nordic_top", "secdom": "secdom_fw", "sysctrl": "sysctrl_fw"}
 VARIANTS = ["minimal", "rich", "signed"]
 DEFAULT_NAMES = {"root": ("nordicsemi.com", "nRF54H20_sample_root"), "app": ("nordicsemi.com", "nRF54H20_sample_app"),
                  "rad": ("nordicsemi.com", "nRF54H20_sample_rad")}
-CUSTOM_NAMES = {"root": ("ACME-Devices.example.org", "Root-Class_1"), "app": ("App.Vendor", "app_class.A"), "rad": ("rad-vendor.io", "RAD_class")}
+CUSTOM_NAMES = {"root": ("ACME-Devices.example.org", "Root-Class_1"), "app": ("App.Vendor&Co", "Tom's_app.A"), "rad": ("rad-vendor.io", "RAD<v2>_class")}
 KCFG = {"root": "ROOT", "app": "APP_LOCAL_1", "rad": "RAD_LOCAL_1"}
 
 
